@@ -16,7 +16,7 @@ Definition env_facts (b : base) (te : Z * ev) : list alarm :=
   | EExtPut _ _ _ | EExtDel _ _ => [9003]
   | EInstDef i key H TTL vi gr mh pr tk mo hh hd bt hp => when (zb tk) 9004 ++ when (zb mo) 9008
   | EApi i call a1 a2 a3 a4 gid => when (call =? aConn) 9005
-  | EHealth i n res dl dur => when (negb (zb res)) 9006
+  | EHealth i n res dl dur => when (negb (zb res)) 9006 ++ when (dl <? dur) 9013   (* 9013: the checker ignored its deadline *)
   | EWDrop _ _ _ _ => [9007]
   | EWClose _ _ => [9009]
   | ECrash _ => [9010]
